@@ -35,4 +35,5 @@ def run(ctx):
     spaces.dense_potential_evaluator(ctx)
     spaces.coefficient_maps(ctx)
     spaces.localised_inherit(ctx)
+    spaces.normal_multipliers(ctx)  # the double layer potential integrates against normal * multiplier
     rules.factory_sites(ctx, "potential", only_files=("laplace.py",))
